@@ -7,10 +7,10 @@ package props
 // step function gives at the block time; attempts of spendable+1 are generated on purpose.
 
 import (
-	"os"
 	"encoding/json"
 	"fmt"
 	"math/big"
+	"os"
 	"testing"
 	"time"
 
@@ -37,8 +37,8 @@ type C08DOp struct {
 }
 
 type C08DCase struct {
-	Lens    []int64  `json:"lens"`    // lockup period lengths
-	Amts    []int64  `json:"amts"`    // uxmpl unlocked per lockup period
+	Lens    []int64  `json:"lens"`     // lockup period lengths
+	Amts    []int64  `json:"amts"`     // uxmpl unlocked per lockup period
 	VestAll bool     `json:"vest_all"` // vesting: everything vests with the first lockup event (else same as lockup)
 	Ops     []C08DOp `json:"ops"`
 }
@@ -110,7 +110,9 @@ func runC08D(st *ev.Stats, c C08DCase) string {
 		}
 		return new(big.Int)
 	}
-	coin2 := func(a chain.Account) *big.Int { return app.BankKeeper.GetBalance(n.Ctx(), a.Addr, c08Denom2).Amount.BigInt() }
+	coin2 := func(a chain.Account) *big.Int {
+		return app.BankKeeper.GetBalance(n.Ctx(), a.Addr, c08Denom2).Amount.BigInt()
+	}
 	locked2 := func() *big.Int {
 		va, ok := app.AccountKeeper.GetAccount(n.Ctx(), V.Addr).(*vestingtypes.ClawbackVestingAccount)
 		if !ok {
